@@ -1184,6 +1184,10 @@ class Stack(list):
     def op_checksig(self, message, _=None):
         public_key = self.pop()
         signature = self.pop()
+        if not signature:
+            # An empty signature is a failed check (false is put on the stack), not a failed script
+            self.append(b'')
+            return True
         signature = Signature.parse_bytes(signature, public_key=public_key)
         if signature.verify(message, public_key):
             self.append(b'\1')
